@@ -1,9 +1,9 @@
 SPECIFICATION Spec
 CONSTANTS Raw = FALSE
-          Pipes = {1, 2}
-          MaxMsgs = 3
+          Pipes = {1}
+          MaxMsgs = 2
           MaxOps = 4
-          NbSend = FALSE
+          NbSend = TRUE
           MaxCap = 2
 ACTION_CONSTRAINT ExportEdge
 VIEW View
